@@ -96,6 +96,10 @@ def main():
             text += (f" The decision logic of {GUARDS[pid]} is re-translated from the source into Lean on every run (translate/py2lean_guards.py → LK/Generated/Guards{pid}.lean) "
                      f"and proved to be the model's (LK/Proofs/Guards{pid}.lean); a broken obligation triggers the failing-input search.")
             tech += " + per-run translation of decision logic with proof obligations"
+        if pid == "C08":
+            text += (" BiasModel.learn's NumPy code is re-translated statement by statement on every run (translate/py2lean_np.py → LK/Generated/NpC08.lean) and proved equal to the accumulation model "
+                     "(biasLearn_eq_model), which is proved equal to the documented damped means.")
+            tech += " + per-run translation of BiasModel.learn proved equal to the model"
         if pid == "C04":
             text += (" The array statements of __call__ of PopScorer, HPFScorer, FunkSVDScorer, ALSBase and BiasedSVDScorer are re-translated on every run (translate/py2lean_scatter.py → LK/Generated/ScatterC04.lean, "
                      "combinators of LK/Model/ArrayOps.lean) and each translated __call__ is proved equal to the per-item map scoreList (LK/Proofs/ScatterC04.lean); the k-NN, FlexMF and implicit scorers remain measured only.")
